@@ -307,3 +307,28 @@ def pdb_read_models(ctx, lines_, root, assume_=None):
                      "PDBTrajectoryFile": Obj(_residueNameReplacements={}, _atomNameReplacements={}, _guess_element=lambda *a_: None)}
     ts.run_fn(rm, self=me)
     return dict(positions=me._positions, lengths=me._unitcell_lengths, angles=me._unitcell_angles, atoms=rec["atoms"])
+
+
+def recorder_topology():
+    """an mdtraj Topology that records what is added to it: .record = [(chain id / index, residue name, resSeq, atom name, element symbol, serial)]"""
+    top = Obj(tag="topology (recorder)", bonds=[], record=[], _lenient=True)
+    state = {"chains": 0}
+
+    def add_chain(chain_id=None, **kw):
+        state["chains"] += 1
+        return Obj(tag="chain", chain_id=chain_id, index=state["chains"] - 1)
+
+    def add_residue(name, chain, resSeq=None, segment_id="", **kw):
+        return Obj(tag="residue", name=name, chain=chain, resSeq=resSeq, segment_id=segment_id)
+
+    def add_atom(name, element=None, residue=None, serial=None, **kw):
+        a = Obj(tag="atom", name=name, element=element, residue=residue, serial=serial, index=len(top.record))
+        top.record.append((residue.chain.chain_id if residue.chain.chain_id is not None else residue.chain.index, residue.name, residue.resSeq, name, getattr(element, "symbol", None), serial))
+        return a
+    top.add_chain, top.add_residue, top.add_atom = add_chain, add_residue, add_atom
+    top.create_standard_bonds = lambda *a_, **k_: None
+    top.create_disulfide_bonds = lambda *a_, **k_: None
+    top.add_bond = lambda *a_, **k_: None
+    top._getters = {"n_atoms": lambda s_: len(top.record), "n_residues": lambda s_: len({(r_[0], r_[2], r_[1]) for r_ in top.record})}
+    top.subset = lambda idx: top
+    return top
